@@ -35,7 +35,7 @@ RUNS = [([], None), (["create"], None), (["fix"], None), (["trim"], None), (["cr
 
 
 def bounds(tier):
-    return {"fixed_histories": {"suffix_pairs": len(SITES) * (len(SITES) - 1), "flows": list(H_FLOWS), "cwd_histories": 18, "import_shape_histories": len(IMP_HEADERS) * len(IMP_FLOWS), "prefix_collision_histories": 12}, "configs": CFGS, "depth_per_config": [_depth(tier, i) for i in range(len(CFGS))], "session_events": len(RUNS), "edit_events": 4}
+    return {"fixed_histories": {"suffix_pairs": len(SITES) * (len(SITES) - 1), "flows": list(H_FLOWS), "cwd_histories": 18, "hash_length_change_histories": len(HL_SITES) * len(HL_CHANGES) * len(HL_SECOND), "import_shape_histories": len(IMP_HEADERS) * len(IMP_FLOWS), "prefix_collision_histories": 12}, "configs": CFGS, "depth_per_config": [_depth(tier, i) for i in range(len(CFGS))], "session_events": len(RUNS), "edit_events": 4}
 
 
 def _depth(tier, ci):
@@ -204,6 +204,10 @@ def _hist_cases(tier):
             for flow in H_FLOWS:
                 for hl in ((12,) if tier == "quick" else (12, 64, 3)):
                     cases.append({"hist": "suffix", "a": a, "b": b, "flow": flow, "hl": hl})
+    for site in HL_SITES:
+        for hl1, hl2 in (HL_CHANGES if tier != "quick" else HL_CHANGES[:4]):
+            for second in HL_SECOND:
+                cases.append({"hist": "hashlen", "site": site, "hl": [hl1, hl2], "second": second})
     for h in IMP_HEADERS:
         for flow in IMP_FLOWS:
             if flow == "create-tidy-trim" and h not in IMP_BINDS_EXTERNAL:
@@ -244,6 +248,15 @@ IMP_FLOWS = {
     "create-tidy-trim": [["create"], "tidy", ["trim"], []],
 }
 IMP_BINDS_EXTERNAL = ("reexport", "star", "try")
+# references written under one hash-length and re-rendered (update) / trimmed under another
+HL_SITES = {
+    "eq": "assert outsource('payload') == snapshot()", "in": "for x in ('payload', 'second'):\n        assert outsource(x) in snapshot()",
+    "list": "assert [outsource('payload'), outsource(b'second')] == snapshot()", "dict": "assert {'a': outsource('payload'), 'b': 1} == snapshot()",
+    "getitem": "s = snapshot()\n    assert s['k'] == outsource('payload')\n    assert s['j'] == [outsource(b'second')]", "le": "assert (1, 'x') <= snapshot()\n    assert outsource('payload') == snapshot()",
+    "call": "assert DC(outsource('payload'), [outsource(b'second')]) == snapshot()",
+}
+HL_CHANGES = [(12, 64), (64, 12), (12, 3), (3, 64), (64, 63), (12, 12)]
+HL_SECOND = [["update"], ["fix", "update"], ["create", "fix", "trim", "update"], ["update", "trim"], ["trim"]]
 
 
 def _hist_file(kinds, prev_text):
@@ -331,6 +344,46 @@ def _run_hist(case):
                 prev_new = {x for x in store if "-new" in x}
                 rejected = "path has to be of the form" in r["out"] or "suffix has to start with" in r["out"]  # outsource() refused the suffix inside the test: a test failure of its own
                 if not flags and "snapshot()" not in text and r["rc"] != 0 and not rejected:
+                    V("plain-session-fails-after-approved-sessions", "%s rc=%s %s" % (label, r["rc"], r["out"][-500:]))
+                if viol:
+                    break
+        finally:
+            plugin.cleanup()
+    elif case["hist"] == "hashlen":
+        src = ("from dataclasses import dataclass\nfrom inline_snapshot import snapshot, outsource\n\n\n@dataclass\nclass DC:\n    a: object\n    b: object\n\n\n"
+               "def test_a():\n    %s\n" % HL_SITES[case["site"]])
+        hl1, hl2 = case["hl"]
+        pp = "[tool.inline-snapshot]\nhash-length = %d\n"
+        d = plugin.mk_project({"pyproject.toml": pp % hl1, "test_h.py": src})
+        sp = ".inline-snapshot/external/"
+        try:
+            for step, (hl, flags) in enumerate([(hl1, ["create"]), (hl2, case["second"]), (hl2, ["trim"]), (hl2, []), (hl1, ["trim", "update"]), (hl1, [])]):
+                plugin.write_files(d, {"pyproject.toml": pp % hl})
+                r = plugin.session(d, ["--inline-snapshot=" + ",".join(flags)] if flags else [])
+                n += 1
+                label = "step %d (hash-length %d, %s)" % (step, hl, flags)
+                if plugin.internal_error(r["out"]) or r["rc"] not in (0, 1):
+                    V("internal-error", "%s rc=%s %s" % (label, r["rc"], r["out"][-600:]))
+                    break
+                after = plugin.listing(d)
+                store = {k[len(sp):]: v for k, v in after.items() if k.startswith(sp) and not k.endswith(".gitignore")}
+                text = after["test_h.py"].decode()
+                try:
+                    ast.parse(text)
+                except SyntaxError as e:
+                    V("file-not-valid-python", "%s: %s" % (label, e))
+                    break
+                refs = re.findall(r'external\(\s*"([0-9a-f]*)(\*?)(\.\w+)"\s*\)', text)
+                want = 1 if case["site"] in ("eq", "dict", "le") else 2
+                if len(refs) != want:
+                    V("reference-not-written", "%s: %d references, %d outsourced values\n%s" % (label, len(refs), want, text[-300:]))
+                for h, star, suf in refs:
+                    cand = [x for x in store if "-new" not in x and x.startswith(h) and x.endswith(suf)]
+                    if len(cand) != 1 or hashlib.sha256(store[cand[0]]).hexdigest() != cand[0].split(".")[0] or store[cand[0]] not in (b"payload", b"second"):
+                        V("written-reference-has-no-unique-persisted-file", "%s: reference %s%s%s, storage %s\n%s" % (label, h, star, suf, sorted(x[:8] + x[64:] for x in store), text[-300:]))
+                    elif not star and len(h) != 64:
+                        V("partial-hash-written-without-star", "%s: reference %s%s\n%s" % (label, h, suf, text[-300:]))
+                if not flags and r["rc"] != 0:
                     V("plain-session-fails-after-approved-sessions", "%s rc=%s %s" % (label, r["rc"], r["out"][-500:]))
                 if viol:
                     break
